@@ -147,7 +147,9 @@ func (k Keeper) EditToken(
 		issuedAmt := k.getTokenSupply(ctx, token.MinUnit)
 		issuedMainUnitAmt := issuedAmt.Quo(sdkmath.NewIntWithDecimal(1, int(token.Scale)))
 
-		if sdkmath.NewIntFromUint64(maxSupply).LT(issuedMainUnitAmt) {
+		// compare in min units: a fractional circulating amount must not be rounded away
+		maxSupplyMinUnitAmt := sdkmath.NewIntFromUint64(maxSupply).Mul(sdkmath.NewIntWithDecimal(1, int(token.Scale)))
+		if maxSupplyMinUnitAmt.LT(issuedAmt) {
 			return errorsmod.Wrapf(
 				types.ErrInvalidMaxSupply,
 				"max supply must not be less than %s",
